@@ -64,7 +64,7 @@ def casevar(rng, w):
 
 def cases(ctx):
     rng = ctx.rng
-    for i in range(ctx.per_shard(ctx.pick(2000, 60000))):
+    for i in range(ctx.per_shard(ctx.pick(2000, 180000))):
         yield {"kind": "words", "wseed": rng.getrandbits(32), "salt": rng.choice(["saltForTest", "", "x", "ß", "0"]),
                "mode": rng.choice(["class", "file", "file+pwd"]),
                "children": 0}
